@@ -63,19 +63,113 @@ fn dispatch(op: &str, args: &[&str]) -> String {
     }
 }
 
+// ---------------------------------------------------------------------------------------------------------
+// Supervisor: the cases run in a forked WORKER child; the parent hands it one case line at a time and waits for
+// the answer under a deadline.  A case that never answers (a loop that spins on server input) is reported as
+// `spin`, a worker that dies (abort, stack overflow, allocation failure) as `crashed`; the worker is then
+// replaced, so one such case can neither stall the run nor leave a thread burning a core behind.
+// VERIF_CASE_TIMEOUT (seconds, default 60); VERIF_NO_SUPERVISOR=1 runs the cases in this process.
+
+fn worker(rfd: libc::c_int, wfd: libc::c_int) -> ! {
+    use std::os::unix::io::FromRawFd;
+    let inp = unsafe { std::fs::File::from_raw_fd(rfd) };
+    let mut outp = unsafe { std::fs::File::from_raw_fd(wfd) };
+    for line in io::BufReader::new(inp).lines() {
+        let line = match line { Ok(l) => l, Err(_) => break };
+        let toks: Vec<&str> = line.split_whitespace().collect();
+        let r = if toks.is_empty() { String::new() } else { dispatch(toks[0], &toks[1..]) };
+        let r = r.replace('\n', " ");
+        if outp.write_all(r.as_bytes()).is_err() || outp.write_all(b"\n").is_err() { break; }
+        let _ = outp.flush();
+    }
+    unsafe { libc::_exit(0) }
+}
+
+struct Worker { pid: libc::pid_t, to: libc::c_int, from: libc::c_int }
+
+fn spawn_worker() -> Worker {
+    unsafe {
+        let mut a = [0 as libc::c_int; 2];
+        let mut b = [0 as libc::c_int; 2];
+        if libc::pipe(a.as_mut_ptr()) != 0 || libc::pipe(b.as_mut_ptr()) != 0 { panic!("pipe"); }
+        let pid = libc::fork();
+        if pid < 0 { panic!("fork"); }
+        if pid == 0 {
+            libc::close(a[1]); libc::close(b[0]);
+            worker(a[0], b[1]);
+        }
+        libc::close(a[0]); libc::close(b[1]);
+        Worker { pid, to: a[1], from: b[0] }
+    }
+}
+
+fn kill_worker(w: &Worker) {
+    unsafe {
+        libc::close(w.to); libc::close(w.from);
+        libc::kill(w.pid, libc::SIGKILL);
+        let mut st = 0;
+        libc::waitpid(w.pid, &mut st, 0);
+    }
+}
+
+/// None = deadline passed; Some(None) = worker died; Some(Some(line)) = answer
+fn ask(w: &Worker, line: &str, pending: &mut Vec<u8>, secs: u64) -> Option<Option<String>> {
+    unsafe {
+        let mut msg = line.as_bytes().to_vec(); msg.push(b'\n');
+        let mut off = 0;
+        while off < msg.len() {
+            let n = libc::write(w.to, msg[off..].as_ptr() as *const libc::c_void, msg.len() - off);
+            if n <= 0 { return Some(None); }
+            off += n as usize;
+        }
+        let t0 = std::time::Instant::now();
+        loop {
+            if let Some(p) = pending.iter().position(|&c| c == b'\n') {
+                let l = String::from_utf8_lossy(&pending[..p]).to_string();
+                pending.drain(..p + 1);
+                return Some(Some(l));
+            }
+            let left = secs as i64 * 1000 - t0.elapsed().as_millis() as i64;
+            if left <= 0 { return None; }
+            let mut p = libc::pollfd { fd: w.from, events: libc::POLLIN, revents: 0 };
+            let rc = libc::poll(&mut p, 1, left as libc::c_int);
+            if rc < 0 { continue; }
+            if rc == 0 { return None; }
+            let mut buf = [0u8; 65536];
+            let n = libc::read(w.from, buf.as_mut_ptr() as *mut libc::c_void, buf.len());
+            if n <= 0 { return Some(None); }
+            pending.extend_from_slice(&buf[..n as usize]);
+        }
+    }
+}
+
 fn main() {
     util::silence_panics();
     let stdin = io::stdin();
     let stdout = io::stdout();
     let mut out = io::BufWriter::new(stdout.lock());
+    let supervised = std::env::var("VERIF_NO_SUPERVISOR").is_err();
+    let secs: u64 = std::env::var("VERIF_CASE_TIMEOUT").ok().and_then(|v| v.parse().ok()).unwrap_or(60);
+    let mut w: Option<Worker> = None;
+    let mut pending: Vec<u8> = vec![];
     for line in stdin.lock().lines() {
         let line = line.unwrap();
         let line = line.trim();
         if line.is_empty() || line.starts_with('#') { continue; }
-        let toks: Vec<&str> = line.split_whitespace().collect();
-        let r = dispatch(toks[0], &toks[1..]);
+        let r = if supervised {
+            if w.is_none() { out.flush().unwrap(); w = Some(spawn_worker()); pending.clear(); }
+            match ask(w.as_ref().unwrap(), line, &mut pending, secs) {
+                Some(Some(r)) => r,
+                Some(None) => { kill_worker(w.as_ref().unwrap()); w = None; "crashed".to_string() }
+                None => { kill_worker(w.as_ref().unwrap()); w = None; format!("spin # harness: no answer within {} s", secs) }
+            }
+        } else {
+            let toks: Vec<&str> = line.split_whitespace().collect();
+            dispatch(toks[0], &toks[1..])
+        };
         // the library prints diagnostics on stdout: result lines carry a marker
         writeln!(out, "@@ {}", r).unwrap();
         out.flush().unwrap();
     }
+    if let Some(x) = w { kill_worker(&x); }
 }
